@@ -40,6 +40,17 @@
 (*   [b |-> bs]  bytes      [s |-> bs] string (UTF-8 bytes)                *)
 (*   [l |-> vs]  list/tuple [d |-> <<[n |-> name, v |-> value], ...>>]     *)
 (*   [tag |-> v, val |-> v]  tagged union          [none |-> TRUE]         *)
+(* A [d] value (template / dataclass, flagswitch, bitfield) DENOTES A      *)
+(* FUNCTION from names to values, not a sequence: E only ever looks        *)
+(* members up by name (Has / Get) and writes them in the order of the      *)
+(* SPEC (t.fs, t.ch), so Enc does not depend on any order of the value.    *)
+(* The sequence is merely the canonical listing of that function in spec   *)
+(* order (what D produces, so that Dec(Enc(v)) = v is plain equality); the *)
+(* binding presents the corresponding Python mapping to the real writer in *)
+(* permuted insertion orders and expects the same bytes for every order.   *)
+(* For an un-shifted bitfield member at bit position pos with mask m the   *)
+(* domain is v = v & (m << pos): bits above the mask AND bits below the    *)
+(* position are refused ("rej"), never shifted or masked away.             *)
 (*                                                                         *)
 (* E(t, v, e, ctx) = [st, b]:                                              *)
 (*   st = "ok"  : v is in the domain of t, b is its encoding               *)
